@@ -175,8 +175,6 @@ def leg_c(ctx, rng, n, formats=("coo", "gcxs", "dok")):
         for fmt in formats:
             if fmt == "dok" and len(shp) == 0:
                 continue
-            if fmt == "gcxs" and len(shp) == 0 and rng.random() < 0.85:
-                continue  # 0-d GCXS cannot be indexed at all (known finding); keep it rare
             x, fdesc = gen.to_format(rng, d, fmt, fill)
             for _ in range(4):
                 idx, js = rand_index(rng, shp)
